@@ -79,25 +79,35 @@ def scenario(sc, results, lock):
 
 
 def mkfail_cases():
-    """a makegateway call that fails leaves no process behind"""
+    """a makegateway call that fails leaves no process behind: at once when it is refused up front (id taken, bad spec),
+    at the latest after terminate() when the failure happens once the interpreter runs (chdir / nice / env configuration)"""
     import execnet
 
     res = []
-    group = execnet.Group()
-    try:
-        group.makegateway("popen//id=taken")
-        for spec in ("popen//id=taken", "popen//python=/nonexistent/python3//id=p2", "popen//id=ok2//id=ok2", "socket=localhost:1//id=s1", "popen//via=nosuchgw//id=v1"):
-            before = procs.children(os.getpid())
+    for spec, immediate in (("popen//id=taken", True), ("popen//python=/nonexistent/python3//id=p2", True), ("popen//id=ok2//id=ok2", True),
+                            ("socket=localhost:1//id=s1", True), ("popen//via=nosuchgw//id=v1", True),
+                            ("popen//chdir=/nonexistent-parent/sub/dir//id=c1", False), ("popen//nice=high//id=n1", False)):
+        group = execnet.Group()
+        import atexit
+
+        atexit.unregister(group._cleanup_atexit)
+        try:
+            group.makegateway("popen//id=taken")
+            before = procs.descendants(os.getpid())
             try:
                 group.makegateway(spec)
                 r = "ok"
             except BaseException as e:  # noqa: BLE001
                 r = type(e).__name__
-            time.sleep(0.4)
-            leaked = bool(procs.children(os.getpid()) - before) if r != "ok" else False
-            res.append({"k": "mkfail", "leaked": leaked, "res": r, "spec": spec})
-    finally:
-        group.terminate(timeout=2)
+            time.sleep(0.3)
+            new = procs.descendants(os.getpid()) - before
+            leaked_now = bool(new) if r != "ok" else False
+        finally:
+            group.terminate(timeout=1)
+        gone = procs.wait_gone(new, 1.5) if r != "ok" else {}
+        leaked_after = any(ms == -1 for ms in gone.values())
+        procs.reap([p for p, ms in gone.items() if ms == -1])
+        res.append({"k": "mkfail", "leaked": (leaked_now if immediate else False) or leaked_after, "res": r, "spec": spec})
     return res
 
 
@@ -110,7 +120,7 @@ def run(ctx):
     if not m.violated or m.violated == "error":
         ctx.machinery("TLC mutant TM_nokill not killed")
     ctx.note(f"TLC Termination/TM: {r.generated} states; mutant TM_nokill (terminate never kills) killed by {m.violated}")
-    envs = ["idle", "receive", "busy", "sleep", "swallow", "sigign", "thread", "stopped", "dead"]
+    envs = ["idle", "receive", "busy", "sleep", "swallow", "sigign", "thread", "nondaemon", "stopped", "dead"]
     scs = []
     for env in envs:
         scs.append({"timeout": 0.5, "gws": [{"env": env, "execmodel": "thread", "topo": "popen"}]})
